@@ -58,9 +58,11 @@ def imp_file(r, path, N, kind):
             fh.write(b"%d %g %g\n" % (k, r.uniform(0, 10), r.uniform(-10, 10)))
 
 
-def gen(seed, i, tier):
+def gen(seed, i, tier, force=None):
     r = core.Rng("c17", seed, i)
     cls = ["grid", "buckets", "rf", "kicks", "impfile", "tracking", "startdist", "grid", "buckets", "impfile", "startdist", "mixed"][i % 12]
+    if force:
+        cls = force.split(":")[0]
     o = dict(GridSize=r.choice([16, 24, 32, 33, 48, 64]), StepsPerTs=r.choice([20, 40, 100]), rotations=r.choice([0.1, 0.25, 0.5]),
              outstep=r.choice([1, 3, 10]), SavePhaseSpace=r.choice([0, 1, 2]), output="o.h5")
     files = {}
@@ -106,6 +108,10 @@ def gen(seed, i, tier):
             o["RFPhaseModAmplitude"] = r.choice([0, 0.1, 5.0])
             o["RFPhaseModFrequency"] = r.choice([0, 8000.0, 1e5])
         o["StepsPerRevolution"] = r.choice([0, 0, 0.01, 0.05])
+        if force == "rf:modulation":
+            o.update(RFPhaseSpread=0, RFAmplitudeSpread=0, RFPhaseModAmplitude=r.choice([0.1, 5.0]), RFPhaseModFrequency=r.choice([8000.0, 1e5]), StepsPerRevolution=0)
+        if force == "rf:noise":
+            o.update(RFPhaseSpread=0.01, RFAmplitudeSpread=1e-4, StepsPerRevolution=0)
     if cls == "kicks":
         o["StepsPerTs"] = r.choice([1, 2, 3, 4, 5, 8, 13])
         o["rotations"] = r.choice([1.0, 2.0])
@@ -117,6 +123,8 @@ def gen(seed, i, tier):
             o["alpha1"] = r.choice([0.1, -1.0])
     if cls in ("impfile",):
         kind = r.choice(["exact", "short", "short", "long", "empty", "missing", "onecol", "text", "nan", "hugeline", "dupline", "binary", "newlines"])
+        if force and ":" in force:
+            kind = force.split(":")[1]
         o["_impkind"] = kind
         if r.chance(0.5):
             o["VacuumGap"] = 0
@@ -132,6 +140,8 @@ def gen(seed, i, tier):
     if cls == "startdist":
         kind = r.choice(["txt_ok", "txt_empty", "txt_malformed", "txt_outside", "h5_same", "h5_smaller", "h5_larger", "h5_rank2", "h5_rank5", "h5_zero_records",
                          "h5_two_bunch", "h5_garbage", "h5_nonsquare", "unknown_ext", "missing_txt"])
+        if force and ":" in force:
+            kind = force.split(":")[1]
         o["_startkind"] = kind
         o["InitialDistStep"] = r.choice([-1, 0, 1, -2, 5])
     return cls, o
@@ -249,8 +259,9 @@ def classify_memcheck(log):
 
 
 def run_case(args):
-    ctx, i, sdir, tool, use_memcheck = args
-    cls, o = gen(ctx.seed, i, ctx.tier)
+    ctx, i, sdir, tool, use_memcheck = args[:5]
+    force = args[5] if len(args) > 5 else None
+    cls, o = gen(ctx.seed, i, ctx.tier, force)
     r = core.Rng("c17files", ctx.seed, i)
     wd = os.path.join(sdir, "c%05d" % i)
     os.makedirs(wd, exist_ok=True)
@@ -318,7 +329,13 @@ def run(ctx):
     build.build("memck")
     jobs = [(ctx, i, sdir, tool, False) for i in range(n)]
     # memcheck subset: spread over the classes
-    jobs += [(ctx, 7 * k + 3, sdir + "/m", tool, True) for k in range(nmem)]
+    # memcheck subset: uninitialised values are invisible to ASan/UBSan, so the classes that read input or build tables
+    # from options are forced into it (one of each per 16), the rest is spread over the generator
+    forced = ["rf:modulation", "rf:noise", "impfile:empty", "impfile:short", "startdist:txt_empty", "startdist:txt_ok", "startdist:h5_rank2",
+              "startdist:h5_same", "tracking", "kicks", "buckets", "grid"]
+    for k in range(nmem):
+        f = forced[k % 16] if (k % 16) < len(forced) else None
+        jobs.append((ctx, 7 * k + 3, sdir + "/m", tool, True, f))
     os.makedirs(sdir + "/m", exist_ok=True)
     for res in core.pmap(run_case, jobs):
         if "incon" in res:
